@@ -1,5 +1,6 @@
 import Drivers.Proto
 import St4sd.Model.Ini
+import St4sd.Model.IniNames
 import St4sd.Gen.C19
 /-! Model driver for property C19 (legacy-format translation of one component). -/
 open Lean Proto St4sd.Ini
@@ -65,6 +66,27 @@ def handle (j : Json) : Except String Json := do
   | "parse" =>
     let ini ← (← getArr j "ini").mapM iniOfJson
     return jobj [("parsed", jopt (fun l => jarr (l.map jsonOfPair)) (parseSection parseTable knownKeys ini))]
+  | "env_name" =>
+    -- environment name -> section written -> name read back
+    let n := (← getStr j "name").toList
+    let sec := St4sd.IniNames.envSection n
+    return jobj [("section", jchars sec), ("back", jopt jchars (St4sd.IniNames.envName sec))]
+  | "env_section" =>
+    let sec := (← getStr j "section").toList
+    return jobj [("back", jopt jchars (St4sd.IniNames.envName sec))]
+  | "stage_names" =>
+    let i ← getNat j "i"
+    let sec := St4sd.IniNames.stageSection i
+    let fn := St4sd.IniNames.stageFile i
+    return jobj [("section", jchars sec), ("section_back", jopt jnat (St4sd.IniNames.stageIndex sec)),
+                 ("file", jchars fn), ("file_back", jopt jnat (St4sd.IniNames.stageFileIndex fn))]
+  | "output_stages" =>
+    let l ← getNatList j "l"
+    let t := St4sd.IniNames.outputStages l
+    return jobj [("text", jchars t), ("back", jopt (fun r => jarr (r.map jnat)) (St4sd.IniNames.parseOutputStages t))]
+  | "output_stages_text" =>
+    let t := (← getStr j "text").toList
+    return jobj [("back", jopt (fun r => jarr (r.map jnat)) (St4sd.IniNames.parseOutputStages t))]
   | "agree" =>
     return jobj [("bad", jarr ((dumpTable.filter fun e => !agrees parseTable knownKeys e).map fun e => jchars e.key))]
   | _ => throw s!"unknown op {op}"
